@@ -315,7 +315,56 @@ def rw_inline_scope(text: str) -> str:
     after = after.lstrip()[1:]
     recv = m.group(2)
     text = text[:m.start()] + '%s.begin_scope();\n%s\n%s = %s.end_scope();' % (recv, inner, m.group(1), recv) + after
-  return ''.join(('self' if (t.kind == 'id' and t.text == 'self_') else t.text) for t in rsitems.lex(text))
+  # statement form of Compiler::scope (begin_scope(table); cb(self); end_scope(end_line)): `RECV.scope(A, B, |self_| BODY);`
+  while True:
+    ms = list(re.finditer(r'(self_*)\s*\.\s*scope\s*\(', text))
+    ms = [m for m in ms if re.match(r'[^|]*\|\s*self_+\s*\|', text[m.end():], flags=re.S)]
+    if not ms: break
+    m = ms[-1]
+    toks = rsitems.lex(text)
+    kopen = next(k for k, t in enumerate(toks) if t.start == m.end() - 1)
+    kclose = rsitems.match_close(toks, kopen)
+    args = text[m.end():toks[kclose].start]
+    am = re.match(r'^(.*?),\s*(.*?),\s*\|\s*self_+\s*\|(.*)$', args, flags=re.S)
+    if not am: raise Undecided('R17: unsupported scope(..) call')
+    inner = am.group(3).strip()
+    if inner.startswith('{') and inner.endswith('}'): inner = inner[1:-1]
+    else: inner = inner + ';'
+    after = text[toks[kclose].end:]
+    if not after.lstrip().startswith(';'): raise Undecided('R17: scope(..) is not a statement')
+    after = after.lstrip()[1:]
+    recv = m.group(1)
+    text = text[:m.start()] + '%s.begin_scope(%s);\n%s\n%s.end_scope(%s);' % (recv, am.group(2).strip(), inner, recv, am.group(1).strip()) + after
+  return ''.join(('self' if (t.kind == 'id' and re.fullmatch(r'self_+', t.text)) else t.text) for t in rsitems.lex(text))
+
+
+def rw_for_range(text: str) -> str:
+  """R13r: every `for _ in A..B { BODY }` (bounds evaluated once, as Rust does) -> `let mut verif_rK = A; let verif_nK = B; while verif_rK < verif_nK { BODY verif_rK += 1; }`"""
+  k = 0
+  while True:
+    m = re.search(r'for\s+_\s+in\s+', text)
+    if not m: return text
+    toks = rsitems.lex(text)
+    # the loop body's '{': first '{' at depth 0 after the header start
+    depth, kb = 0, None
+    for idx, t in enumerate(toks):
+      if t.start < m.end(): continue
+      if t.kind == 'p' and t.text in '([': depth += 1
+      elif t.kind == 'p' and t.text in ')]': depth -= 1
+      elif t.kind == 'p' and t.text == '{' and depth == 0: kb = idx; break
+    if kb is None: raise Undecided('R13r: no loop body')
+    header = text[m.end():toks[kb].start].strip()
+    hm = re.match(r'^(.*?)\.\.(.*)$', header, flags=re.S)
+    if not hm: raise Undecided('R13r: not a range loop: %r' % header)
+    lo, hi = (hm.group(1).strip() or '0'), hm.group(2).strip()
+    kc = rsitems.match_close(toks, kb)
+    body = text[toks[kb].end:toks[kc].start]
+    if any(t.kind == 'id' and t.text in ('continue', 'break') for t in rsitems.lex(body)): raise Undecided('R13r: loop body contains continue / break')
+    b = body.rstrip()
+    if b and not b.endswith(';') and not b.endswith('}'): b += ';'
+    new = 'let mut verif_r%d = %s; let verif_n%d = %s;\n    while verif_r%d < verif_n%d {%s\n      verif_r%d += 1;\n    }' % (k, lo, k, hi, k, k, b, k)
+    text = text[:m.start()] + new + text[toks[kc].end:]
+    k += 1
 
 
 def rw_mut_self(text: str) -> str:
@@ -857,6 +906,7 @@ def build_unit(name: str, variant: Optional[str] = None, canary: bool = False) -
         elif rule == 'R1': new = rw_mut_self(new)
         elif rule == 'R4g': new = rw_option_tail(new)
         elif rule == 'R15': new = rw_trace_log(new)
+        elif rule == 'R13r': new = rw_for_range(new)
         elif rule == 'R17': new = rw_inline_scope(new)
         elif rule == 'R16': new = rw_thread_heap(new, args['methods'])
         elif rule == 'R13m': new = rw_range_map_collect(new)
